@@ -12,6 +12,7 @@ import (
 	"fmt"
 	"io"
 	"os"
+	"runtime"
 	"reflect"
 	"strconv"
 	"strings"
@@ -331,6 +332,33 @@ func viewAck(v *vw, p ackLike, ups mq.UserProperties) {
 }
 
 func viewLine(p mq.ControlPacket) string { return kindOf(p) + " " + viewOf(p) }
+
+// bytes allocated so far (C05: "bytes allocated during the call")
+func allocated() uint64 {
+	var m runtime.MemStats
+	runtime.ReadMemStats(&m)
+	return m.TotalAlloc
+}
+
+// allocLimit is what a decode of `input` bytes declaring `declared` bytes may allocate before it is reported as not
+// proportional: the unchanged decoder needs at most about 40 bytes per input byte (a user property of five bytes
+// becomes a 32-byte element of a slice grown by doubling) plus the frame buffer of the declared size.
+func allocLimit(input, declared int) uint64 {
+	return 1<<20 + 512*uint64(input) + 2*uint64(declared)
+}
+
+// the remaining length a frame declares, 0 if its fixed header is incomplete or malformed
+func declaredLen(d []byte) int {
+	v, m := 0, 1
+	for i := 1; i < len(d) && i <= 4; i++ {
+		v += int(d[i]&127) * m
+		if d[i]&128 == 0 {
+			return v
+		}
+		m *= 128
+	}
+	return 0
+}
 
 // number of list elements a packet holds (C05)
 func listElements(p mq.ControlPacket) int {
@@ -672,7 +700,12 @@ func (e *executor) exec(line string) (res string) {
 		wasTainted := s.tainted
 		before := listElements(s.p)
 		s.tainted = true // stays set if the call below panics
-		if err := s.p.UnmarshalBinary(d); err != nil {
+		a0 := allocated()
+		err := s.p.UnmarshalBinary(d)
+		if a := allocated() - a0; a > allocLimit(len(d), 0) {
+			return fmt.Sprintf("dec FAIL alloc=%d input=%d", a, len(d))
+		}
+		if err != nil {
 			return "dec err"
 		}
 		s.tainted = wasTainted
@@ -725,8 +758,17 @@ func (e *executor) exec(line string) (res string) {
 						out, stop = "panic", true
 					}
 				}()
+				declared := 0
+				if before < len(r.data) {
+					declared = declaredLen(r.data[before:])
+				}
+				a0 := allocated()
 				p, err := mq.ReadPacket(r)
+				a := allocated() - a0
 				c := r.consumed - before
+				if a > allocLimit(len(r.data), declared) {
+					return fmt.Sprintf("FAIL alloc=%d input=%d declared=%d", a, len(r.data), declared), true
+				}
 				switch {
 				case p != nil && err == nil:
 					if s == nil {
@@ -817,6 +859,32 @@ func (e *executor) exec(line string) (res string) {
 			msg = strings.TrimSpace(msg[i+1:])
 		}
 		return "wf " + strings.ReplaceAll(msg, " ", "_")
+	case "FCOPY":
+		// FCOPY <slot> <i> <hex> <opt>: a TopicFilter value copied out of a SUBSCRIBE (`f := p.Filters()[i]`, or the
+		// copy AddFilters makes into a second packet) and modified through its setters — the packet it came from
+		// must not notice
+		if len(toks) != 5 {
+			return "bad-op"
+		}
+		sub, ok := s.p.(*mq.Subscribe)
+		idx, err1 := strconv.Atoi(toks[2])
+		v, ok2 := unhex(toks[3])
+		opt, err2 := strconv.Atoi(toks[4])
+		if !ok || err1 != nil || !ok2 || err2 != nil {
+			return "bad-op"
+		}
+		if fs := sub.Filters(); idx < len(fs) {
+			f := fs[idx]
+			f.SetFilter(string(v))
+			f.SetOptions(mq.Opt(opt))
+			other := mq.NewSubscribe()
+			other.AddFilters(fs...)
+			if of := other.Filters(); idx < len(of) {
+				of[idx].SetFilter(string(v))
+				of[idx].SetOptions(mq.Opt(opt))
+			}
+		}
+		return "ok"
 	case "SCRIBBLE":
 		for i := range s.lastDec {
 			s.lastDec[i] ^= 0xff
